@@ -85,21 +85,83 @@ def run(ctx):
         to = [x for x in calls_in(hi) if x[1].split("::")[-1] == "unwrap_or"]
         R.ob(any(mentions(x[2][0], "block_number_to") and mentions(x[2][1], "block_number_from") for x in to), "WIRE", c.where(),
              "WIRE|get_logs|default-to", "default of toBlock is not fromBlock")
-    # 3. filter structure
-    bodies = [fn] + F.descendants(fn.id)
+    # 3. filter structure: every access to a log's topic at a filter position is preceded by a presence test
+    #    (idx < log.topics.len(), or log.topics.get(idx) is Some) whose *absent* edge clears the match flag before
+    #    the push decision: positions beyond the log's topic count do not match.
+    pushes0 = [c for c in fn.calls() if (c.method or "") == "push" and not fn.is_cleanup(c.bb)]
+    flag_sw = None
+    if pushes0:
+        for (a, s_) in control_deps(fn).get(pushes0[0].bb, set()):
+            if fn.term(a)["k"] == "switch" and "l" in fn.term(a)["discr"]:
+                flag_sw = a
+    R.ob(flag_sw is not None, "ANCHOR", fn.where(), "ANCHOR|get_logs|match-flag", "the push is not controlled by a match flag")
+    flag_local = fn.term(flag_sw)["discr"]["l"] if flag_sw is not None else None
+    # the flag may be copied into the switch operand: follow one copy
+    if flag_local is not None:
+        ds = [d for d in fn.defs().get(flag_local, []) if d[2] == "assign"]
+        if len(ds) == 1 and ds[0][3]["rv"]["k"] == "use" and "l" in ds[0][3]["rv"]["ops"][0]:
+            flag_local = ds[0][3]["rv"]["ops"][0]["l"]
+    clear_blocks = set()
+    if flag_local is not None:
+        for bi, b in enumerate(fn.blocks):
+            for st_ in b["stmts"]:
+                if st_["k"] == "assign" and st_["lhs"]["l"] == flag_local and not st_["lhs"].get("p"):
+                    t_ = origin(fn, st_["rv"]["ops"][0]) if st_["rv"].get("ops") else ("x",)
+                    if t_[0] == "const" and t_[1] is False:
+                        clear_blocks.add(bi)
+    R.floor("match_flag_clear_sites", len(clear_blocks), 2)
+
+    def absent_clears(edge_target):
+        """from the absent edge, the push decision cannot be reached without clearing the flag"""
+        reach = fn.reachable(edge_target, avoid=clear_blocks)
+        return flag_sw not in reach
+
+    LOG_TOPICS = "FixedBytesED<32>"
     n_idx = 0
+    bodies = [fn] + F.descendants(fn.id)
+    # (i) presence tests by length comparison in get_logs itself
+    len_tests = []
+    for (b2, s2, fm, line) in edge_forms(fn):
+        if fm.rel != "<=" or len(fm.lin.terms) != 2:
+            continue
+        lens = [(t, cf) for t, cf in fm.lin.terms.items() if "len(" in show(t) and any(x[1].split("::")[-1] == "len" and LOG_TOPICS in (x[3] or "") for x in calls_in(t))]
+        if lens and lens[0][1] == -1 and fm.lin.k == 1:
+            # present edge: idx - len + 1 <= 0 ; the other successor of b2 is the absent edge
+            others = [x for x in fn.succ(b2) if x != s2]
+            len_tests.append((b2, s2, others[0] if others else None))
+    # (ii) presence tests by `.get(idx)` on the log's topics
+    get_tests = []
+    for c in fn.calls():
+        if (c.method or "") == "get" and not fn.is_cleanup(c.bb) and LOG_TOPICS in (c.self_ty or (c.res or {}).get("full") or c.full or ""):
+            sw = fn.succ(c.bb)[0]
+            t = fn.term(sw)
+            if t["k"] == "switch":
+                some_t = [tb for v, tb in t["targets"] if v == 1]
+                none_t = [tb for v, tb in t["targets"] if v == 0] or [t["otherwise"]]
+                get_tests.append((sw, some_t[0] if some_t else t["otherwise"], none_t[0], c))
+    for (b2, present, absent) in len_tests:
+        n_idx += 1
+        R.ob(absent is not None and absent_clears(absent), "GUARD", "%s:%s" % (fn.loc["f"], fn.term(b2)["loc"]["l"]), "GUARD|get_logs|absent-topic-no-match:len",
+             "a log with fewer topics than the filter position can still match: the `idx >= log.topics.len()` edge does not clear the match flag",
+             sample={"rule": "GUARD", "fn": "get_logs", "presence_test": "idx < log.topics.len()", "absent_edge": "clears match flag"})
+    for (sw, present, absent, c) in get_tests:
+        n_idx += 1
+        R.ob(absent_clears(absent), "GUARD", c.where(), "GUARD|get_logs|absent-topic-no-match:get",
+             "a log with fewer topics than the filter position can still match: `log.topics.get(idx)` being None does not clear the match flag "
+             "(the position is treated as a wildcard)", sample={"rule": "GUARD", "fn": "get_logs", "presence_test": "log.topics.get(idx)", "absent_edge": "clears match flag"})
+    # every raw index into the log's topics must sit behind one of the presence tests
     for g2 in bodies:
         for c in g2.calls():
             if g2.is_cleanup(c.bb) or not (c.trait or "").endswith("Index") or (c.method or "") != "index":
                 continue
             if "SingleOrVec" in (c.self_ty or ""):
                 continue       # the filter's own vector, indexed by its induction variable (0..topics.len())
-            n_idx += 1
             ok = _guarded_index(F, fn, g2, c)
             R.ob(ok, "GUARD", c.where(), "GUARD|get_logs|topic-index:%s" % ("closure" if g2 is not fn else "body"),
                  "log.topics[idx] is reached without `idx < log.topics.len()` on the path: a filter position beyond the log's "
                  "topic count panics instead of not matching", sample={"rule": "GUARD", "fn": g2.name[-50:], "index": "log.topics[idx]", "guard": "idx < len"})
-    R.floor("topic_index_sites", n_idx, 2)
+    # each filter arm (single value, list of alternatives) has its presence test
+    R.floor("topic_presence_tests", n_idx, 2)
     pushes = [c for c in fn.calls() if (c.method or "") == "push" and not fn.is_cleanup(c.bb)]
     R.ob(len(pushes) == 1, "PAIR", fn.where(), "PAIR|get_logs|single-push", "a log can be pushed %d times per receipt log" % len(pushes))
     for c in pushes:
